@@ -1175,13 +1175,13 @@ pub(crate) fn interpret_isodatetime_offset(
             date.is_valid_day_range()?;
             let iso = IsoDateTime::new_unchecked(date, time);
             // 8. Let utcEpochNanoseconds be GetUTCEpochNanoseconds(isoDateTime).
-            let utc_epochs = iso.as_nanoseconds()?;
+            let utc_epochs = iso.utc_epoch_nanoseconds_unchecked();
             // 9. Let possibleEpochNs be ? GetPossibleEpochNanoseconds(timeZone, isoDateTime).
             let possible_nanos = timezone.get_possible_epoch_ns_for(iso, provider)?;
             // 10. For each element candidate of possibleEpochNs, do
             for candidate in &possible_nanos {
                 // a. Let candidateOffset be utcEpochNanoseconds - candidate.
-                let candidate_offset = utc_epochs.0 - candidate.0;
+                let candidate_offset = utc_epochs - candidate.0;
                 // b. If candidateOffset = offsetNanoseconds, then
                 if candidate_offset == offset.into() {
                     // i. Return candidate.
